@@ -19,7 +19,7 @@ def main():
                   "gen %.2fs" % rep.time_s)
             t0 = time.time()
             res = smt.discharge(rep.obligs)
-            bad = [r for r in res if r["result"] != "unsat"]
+            bad = [r for r in res if r["result"] != "unsat" and not r["name"].endswith("/canary")]
             print("   discharged %d/%d in %.2fs" % (len(res) - len(bad), len(res), time.time() - t0))
             seen = set()
             for r in bad:
